@@ -230,6 +230,12 @@ pub fn run_shard(ctx: &mut Ctx) {
             Err(RunErr::Inconclusive(s)) => ctx.out.inconclusive.push(s),
         }
     }
+    // the worker's largest possible batch: a full request queue behind a parked worker
+    {
+        let n = if ctx.tier == Tier::Quick { 2 } else { 30 };
+        let (t0, b) = (ctx.t0, ctx.budget_s);
+        crate::props::maxbatch::run(&mut ctx.out, n, &mut r, &|| util::now_s() - t0 < b + 20.0);
+    }
     ctx.out.count("acks_ok_checked_against_shadow_fs", stats.acks_ok);
     ctx.out.count("acks_err", stats.acks_err);
     ctx.out.count("acks_ok_spanning_several_chunk_files", stats.acks_across_rotation);
